@@ -487,3 +487,125 @@ class IfCmp(SelectionKernel):
 
 
 KERNELS += [IfThenElse, IfCmp]
+
+
+# ------------------------------------------------------------------ target_link_ops.cpp: what the consumer had been shown
+#
+# On a retarget over a set/dictionary the consumer's delta is the difference between the OLD contents it had been shown
+# (the previous target as of the end of the previous cycle) and the new target's contents.  In terms of the slot store
+# (C05 SLInv: added is a subset of live, removed is disjoint from live and still readable):
+#     old[s] = (live[s] and not added_this_cycle[s]) or removed_this_cycle[s]
+# where this cycle's added/removed marks are only meaningful when the previous target was modified at the transition time.
+
+TLTU = "src/hgraph/types/time_series/ts_input/target_link_ops.cpp"
+I_ = z3.IntSort()
+B_ = z3.BoolSort()
+
+
+class FnField(Obj):
+    cls = "fnptr"
+
+    def __init__(self, fn):
+        Obj.__init__(self, name="fn")
+        self.fn = fn
+
+    def call(self, I, args, n):
+        return self.fn(I, args, n)
+
+
+class SlotAccess(Obj):
+    cls = "slot_access"
+
+    def __init__(self, k):
+        Obj.__init__(self, name="slot_access")
+        self.k = k
+
+    def member(self, ctx, name, node):
+        k = self.k
+        tbl = {
+            "slot_occupied": lambda I, a, n: z3.Or(k.live[I.ctx.rv(a[1])], k.removed[I.ctx.rv(a[1])]),
+            "slot_published": lambda I, a, n: z3.Or(k.live[I.ctx.rv(a[1])], k.removed[I.ctx.rv(a[1])]),
+            "slot_added": lambda I, a, n: k.added[I.ctx.rv(a[1])],
+            "slot_removed": lambda I, a, n: k.removed[I.ctx.rv(a[1])],
+        }
+        if name in tbl:
+            return FnField(tbl[name])
+        raise Gap("slot access operation %s" % name)
+
+
+class PrevView(Obj):
+    cls = "TSDataView(previous)"
+
+    def __init__(self, k):
+        Obj.__init__(self, name="previous")
+        self.k = k
+
+    def m_valid(self, I, a, n):
+        return z3.And(z3.Not(self.k.link_null), self.k.transition_active, self.k.prev_valid)
+
+    def m_modified(self, I, a, n):
+        t = I.ctx.rv(a[0])
+        I.ctx.oblige("callee-pre.previous-target-inspected-at-the-transition-time", t == self.k.transition_time, kind="callee-pre")
+        return self.k.prev_modified_at_transition
+
+
+class TLink(Obj):
+    cls = "TargetLink"
+
+    def __init__(self, k):
+        Obj.__init__(self, name="link")
+        self.k = k
+
+    def m_structural_transition_time(self, I, a, n):
+        return self.k.transition_time
+
+    def m_structural_transition_active(self, I, a, n):
+        return self.k.transition_active
+
+
+class PreviousSlotWasPublished(Kernel):
+    tu = TLTU
+    name = "target_link_ops.cpp:target_link_previous_slot_was_published"
+    fn_name = "target_link_previous_slot_was_published"
+    filter = "target_link_previous_slot_was_published"
+    property_ids = ("C13",)
+    scope = {"lo": 0, "hi": 3}
+    title = "target_link_previous_slot_was_published: a slot counts as shown to the consumer iff it was in the old contents"
+
+    def setup(self, I):
+        ctx = I.ctx
+        self.live, self.added, self.removed = (z3.Array(nm, I_, B_) for nm in ("slot_live", "slot_added_this_cycle", "slot_removed_this_cycle"))
+        qs = z3.Int("qs")
+        ctx.assume(z3.ForAll([qs], z3.And(z3.Implies(self.added[qs], self.live[qs]), z3.Not(z3.And(self.removed[qs], self.live[qs])))))
+        self.link_null, self.access_null = z3.Bool("link_null"), z3.Bool("slot_access_null")
+        self.transition_active, self.prev_valid = z3.Bool("transition_active"), z3.Bool("previous_target_valid")
+        self.prev_modified_at_transition = z3.Bool("previous_modified_at_the_transition_time")
+        self.transition_time = z3.Int("transition_time")
+        self.slot = z3.Int("slot")
+        state = Obj("TSInputTargetLinkContext", "state")
+        ctx.store[(state.oid, "slot_access")] = Ptr(SlotAccess(self), self.access_null)
+        self.state = state
+        return None, {"context": Ptr(state), "memory": Ptr(Obj("memory", "memory")), "slot": self.slot}
+
+    def function_handler(self, name, node, callee_node):
+        if name == "target_link_for":
+            return lambda I, a, n: Ptr(TLink(self), self.link_null)
+        if name == "target_link_previous_view":
+            return lambda I, a, n: PrevView(self)
+        return Kernel.function_handler(self, name, node, callee_node)
+
+    def ctor_handler(self, qt, node):
+        if qt.endswith("TSDataView"):
+            return lambda I, args, n: (I.ctx.rv(args[0]) if args else PrevView(self))
+        return Kernel.ctor_handler(self, qt, node)
+
+    def post(self, I, ret):
+        s = self.slot
+        usable = z3.And(z3.Not(self.link_null), self.transition_active, self.prev_valid, z3.Not(self.access_null))
+        old = z3.If(self.prev_modified_at_transition, z3.Or(z3.And(self.live[s], z3.Not(self.added[s])), self.removed[s]),
+                    z3.Or(self.live[s], self.removed[s]))
+        I.ctx.oblige("ensures.result<=>the-slot's-key-was-in-the-old-contents-the-consumer-had-been-shown[C13 a retarget over a set or "
+                     "dictionary reports the difference between old and new contents]", ret == z3.And(usable, old), kind="post-normal")
+
+
+KERNELS += [PreviousSlotWasPublished]
